@@ -225,6 +225,7 @@ def gen_c03(rng, tier):
         w = World(rng, selfmode=selfmode, denymode=False)
         cases.append(case(w, stun_sweep_frames(rng, w), ['stun-change-request-sweep', 'self-list' if selfmode else 'no-self-list']))
         cases.append(case(w, l24_request_sweep(rng, w), ['request-mac-source-sweep']))
+        cases.append(case(w, protocol_shape_frames(rng, w), ['protocol-sweep-shaped-payloads']))
     return cases + gen_sticky(rng, tier)
 
 
@@ -252,6 +253,47 @@ def ethertype_frames(rng, w):
     return out
 
 
+def protocol_shape_frames(rng, w):
+    """every IP protocol number (IPv4 and IPv6) in front of payloads shaped like the transports the responder knows: a UDP datagram
+    with a STUN / DNS request, a TCP SYN, a complete IPv6 packet (6in4 style), a complete IPv4 packet (IP in IP), an ICMP echo"""
+    out = []
+    stun = b'\x00\x01\x00\x00' + rng.bytes(16)
+    dns = struct.pack('>HHHHHH', 7, 0x0100, 1, 0, 0, 0) + b'\x01a\x00' + struct.pack('>HH', 1, 1)
+    inner6 = ipv6(w.cl6, w.my6, 6, lib.tcp(4000, 80, 1, 0, 2, src=w.cl6, dst=w.my6))
+    inner4 = ipv4(w.cl4, w.my4, 1, icmp(8, 0, b'abcdefgh'))
+    for proto in range(256):
+        for v6 in (False, True):
+            s_, d_ = w.addrs(v6)
+            for l4 in (lib.udp(4000, 3478, stun, src=s_, dst=d_), lib.udp(4000, 53, dns, src=s_, dst=d_), lib.tcp(4000, 80, 1, 0, 2, src=s_, dst=d_), inner6, inner4):
+                if proto in (1, 6, 17, 58) and l4 not in (inner6, inner4):
+                    continue        # (the genuine pairings are everywhere else)
+                out.append(w.fip(v6, proto, l4))
+    return out
+
+
+def mac_derived_frames(rng, w):
+    """addresses a stack might derive from its own MAC without being told: the EUI-64 link-local address fe80::(MAC), its
+    solicited-node group and MAC, the IPv4 link-local address made of the last MAC bytes -- as destination, as solicited target,
+    as ARP target, on the own MAC and on the derived multicast MAC"""
+    m = w.mac
+    ll = bytes.fromhex('fe80000000000000') + bytes([m[0] ^ 2, m[1], m[2], 0xff, 0xfe, m[3], m[4], m[5]])
+    snm = bytes([0x33, 0x33, 0xff, m[3], m[4], m[5]])
+    sng = bytes.fromhex('ff0200000000000000000001ff') + m[3:6]
+    ll4 = bytes([169, 254, m[4], m[5]])
+    out = []
+    for dm in (w.mac, snm, BCAST):
+        for d6, tgt in ((ll, ll), (sng, ll), (w.my6, ll), (ll, w.my6)):
+            out.append(eth(dm, w.cl_mac, 0x86dd, ipv6(w.cl6, d6, 58, icmp6(135, 0, bytes(4) + tgt + b'\x01\x01' + w.cl_mac, w.cl6, d6), hlim=255)))
+        out.append(eth(dm, w.cl_mac, 0x86dd, ipv6(w.cl6, ll, 58, icmp6(128, 0, b'abcdefgh', w.cl6, ll))))
+        out.append(eth(dm, w.cl_mac, 0x86dd, ipv6(w.cl6, ll, 6, lib.tcp(4000, 80, 1, 0, 2, src=w.cl6, dst=ll))))
+        out.append(eth(dm, w.cl_mac, 0x86dd, ipv6(w.cl6, w.my6, 58, icmp6(128, 0, b'abcdefgh', w.cl6, w.my6))))
+        out.append(eth(dm, w.cl_mac, 0x0800, ipv4(w.cl4, w.my4, 1, icmp(8, 0, b'abcdefgh'))))
+        out.append(eth(dm, w.cl_mac, 0x0800, ipv4(w.cl4, ll4, 1, icmp(8, 0, b'abcdefgh'))))
+        out.append(eth(dm, w.cl_mac, 0x0806, arp(1, w.cl_mac, w.cl4, bytes(6), ll4)))
+        out.append(eth(dm, w.cl_mac, 0x0806, arp(1, w.cl_mac, w.cl4, bytes(6), w.my4)))
+    return out
+
+
 def gen_c02(rng, tier):
     cases = gen_mixed(rng, tier)
     w = World(rng, selfmode=True, denymode=True)
@@ -262,6 +304,8 @@ def gen_c02(rng, tier):
         frames.append(w.f6(proto, icmp6(128, 0, b'abcdefgh', w.cl6, w.my6) + bytes(20)))
     cases.append(case(w, frames, ['ethertype-sweep', 'protocol-sweep']))
     cases.append(case(w, ethertype_frames(rng, w), ['ethertype-runts-and-tags']))
+    cases.append(case(w, protocol_shape_frames(rng, w), ['protocol-sweep-shaped-payloads']))
+    cases.append(case(w, mac_derived_frames(rng, w), ['mac-derived-addresses']))
     cases += sweep_cases(rng)
     # destination-address sweep: every kind of answerable request, addressed to group / broadcast / foreign /
     # second-self addresses, on every accepted destination MAC class, with and without a self-IP list
@@ -777,6 +821,7 @@ def gen_c20(rng, tier):
     for lg in ('console', 'logfmt'):
         w = World(rng, selfmode=False, denymode=False, logger=lg)
         cases.append(case(w, stun_sweep_frames(rng, w, dports=(3478, 65535, 65534, 0), flagset=(0, 2, 4, 6)), ['stun-rewrite-sweep', 'logger:' + lg]))
+        cases.append(case(w, protocol_shape_frames(rng, w) + mac_derived_frames(rng, w), ['protocol-sweep-shaped-payloads', 'mac-derived-addresses', 'logger:' + lg]))
     return cases + sweep_cases(rng, 'console') + sweep_cases(rng, 'logfmt')
 
 
@@ -833,6 +878,32 @@ def field_sweep(rng, w):
             g = bytearray(f)
             g[off:off + len(val)] = val
             out.append(refix(bytes(g)))
+        if v6:
+            # extension headers between the IPv6 header and the transport: hop-by-hop, destination options, routing, fragment
+            # (offset 0, no more fragments), authentication header (its length counts 4-byte units, minus 2), two of them
+            nh = f[20]
+            def ext(kind, nxt):
+                if kind == 44:
+                    return bytes([nxt, 0, 0, 0]) + b'\x00\x00\x00\x01'
+                if kind == 51:
+                    return bytes([nxt, 4, 0, 0]) + bytes(20)
+                return bytes([nxt, 0, 1, 4, 0, 0, 0, 0])
+            for chain in ((0,), (60,), (43,), (44,), (51,), (0, 60), (60, 51), (51, 60)):
+                hdrs, nxt = b'', nh
+                for kind in reversed(chain):
+                    hdrs, nxt = ext(kind, nxt) + hdrs, kind
+                g = bytearray(f[:54]) + hdrs + f[54:]
+                g[20] = nxt
+                g[18:20] = struct.pack('>H', len(g) - 54)
+                out.append(bytes(g))
+        else:
+            # IPv4 options in front of the transport: NOPs + EOL, router alert, record route, the maximum of 40 bytes
+            for opts in (b'\x01\x01\x01\x00', b'\x94\x04\x00\x00', b'\x07\x07\x04\x00\x00\x00\x00\x00', b'\x01' * 40, b'\x44\x04\x05\x00'):
+                ihl = 5 + len(opts) // 4
+                g = bytearray(f[:34]) + opts + f[34:]
+                g[14] = 0x40 | ihl
+                g[16:18] = struct.pack('>H', len(g) - 14)
+                out.append(refix(bytes(g)))
     return out
 
 
@@ -859,6 +930,18 @@ def l24_request_sweep(rng, w):
             frames.append(eth(dm, w.cl_mac, 0x86dd, ipv6(w.cl6, m6, 58, icmp6(135, 0, bytes(4) + m6 + b'\x01\x01' + w.cl_mac, w.cl6, m6), hlim=255)))
             frames.append(eth(dm, w.cl_mac, 0x86dd, ipv6(w.cl6, w.my6, 58, icmp6(135, 0, bytes(4) + m6 + b'\x01\x01' + w.cl_mac, w.cl6, w.my6), hlim=255)))
             frames.append(eth(dm, w.cl_mac, 0x86dd, ipv6(w.cl6, m6, 6, lib.tcp(4000, 80, 1, 0, 2, src=w.cl6, dst=m6))))
+        # requests of every kind whose source is itself a handled address (the second one of the family, or the destination)
+        stun = b'\x00\x01\x00\x08' + bytes(16) + b'\x00\x03\x00\x04\x00\x00\x00\x02'
+        dnsq = struct.pack('>HHHHHH', 7, 0x0100, 1, 0, 0, 0) + b'\x01a\x00' + struct.pack('>HH', 1, 1)
+        for s4h, s6h in ((w.my4b, w.my6b), (w.my4, w.my6)):
+            for pl, dp in ((stun, 3478), (dnsq, 53), (b'GET / HTTP/1.1\r\n\r\n', 80)):
+                frames.append(eth(dm, w.cl_mac, 0x0800, ipv4(s4h, w.my4, 17, lib.udp(65535, dp, pl, src=s4h, dst=w.my4))))
+                frames.append(eth(dm, w.cl_mac, 0x86dd, ipv6(s6h, w.my6, 17, lib.udp(65535, dp, pl, src=s6h, dst=w.my6))))
+            ck4, ck6 = w.cookie(s4h, w.my4, 4100, 80), w.cookie(s6h, w.my6, 4100, 80)
+            frames.append(eth(dm, w.cl_mac, 0x0800, ipv4(s4h, w.my4, 6, lib.tcp(4100, 80, 5, (ck4 + 1) & 0xffffffff, 0x18, b'GET / HTTP/1.1\r\n\r\n', src=s4h, dst=w.my4))))
+            frames.append(eth(dm, w.cl_mac, 0x86dd, ipv6(s6h, w.my6, 6, lib.tcp(4100, 80, 5, (ck6 + 1) & 0xffffffff, 0x18, b'GET / HTTP/1.1\r\n\r\n', src=s6h, dst=w.my6))))
+            frames.append(eth(dm, w.cl_mac, 0x0800, ipv4(s4h, w.my4, 1, icmp(8, 0, b'abcdefgh'))))
+            frames.append(eth(dm, w.cl_mac, 0x86dd, ipv6(s6h, w.my6, 58, icmp6(128, 0, b'abcdefgh', s6h, w.my6))))
         for s4 in (w.cl4, bytes(4), ip4('169.254.1.1'), ip4('127.0.0.1')):
             frames.append(eth(dm, w.cl_mac, 0x0800, ipv4(s4, w.my4, 1, icmp(8, 0, b'abcdefgh'))))
             frames.append(eth(dm, w.cl_mac, 0x0800, ipv4(s4, w.my4, 6, lib.tcp(4000, 80, 1, 0, 2, src=s4, dst=w.my4))))
@@ -1142,7 +1225,7 @@ def gen_c10(rng, tier):
         req = gen.gen_stun_long(rng) if kind == 'stun' else gen.gen_app(rng, tcp=True, kinds=[kind])[2]
         while kind != 'stun' and len(req) < 14:
             req = gen.gen_app(rng, tcp=True, kinds=[kind])[2]
-        plans = [[req]] + [[req[:c], req[c:]] for c in range(1, 10)] + [[req[i:i + 1] for i in range(8)] + [req[8:]]]
+        plans = [[req]] + [[req[:c], req[c:]] for c in range(1, 10)] + [[req[i:i + 1] for i in range(8)] + [req[8:]]] + [[req[i:i + 1] for i in range(min(40, len(req) - 1))] + [req[min(40, len(req) - 1):]]]
         pidx = []
         for parts in plans:
             _ck[0] += 1
@@ -1207,7 +1290,7 @@ def gen_c14(rng, tier):
         if f:
             ops.append(('F', f))
     cases.append(acase(w, ops, ['udp-checksum-ffff']))
-    return cases
+    return cases + sweep_as_app_case(rng)
 
 
 def post_c10(cases):
@@ -1225,6 +1308,18 @@ def post_c10(cases):
                                           % (kind, ids[0], plans[k], ids[k]),
                                 'ops': [op_to_json(x) for x in c['ops'][:2] + c['ops'][lo:pidx[k] + 1]], 'tags': c['tags'] + [kind]})
                     break
+    return out
+
+
+def sweep_as_app_case(rng):
+    """the request x MAC x source sweep and the header-field sweep as application observations (UDP datagrams and first TCP data
+    segments are judged by the protocol's own judge: a valid request is answered whatever its source, MAC class or header fields)"""
+    out = []
+    for selfmode in (True, False):
+        w = World(rng, selfmode=selfmode, denymode=False)
+        # (frames on the derived multicast MACs are only for us when a self-IP list is configured: kept out of this use)
+        c = acase(w, [('F', f) for f in l24_request_sweep(rng, w) if f[:6] in (w.mac, BCAST)], ['request-mac-source-sweep', 'header-field-sweep'])
+        out.append(c)
     return out
 
 
@@ -1268,7 +1363,7 @@ def gen_c15(rng, tier):
             if f:
                 ops.append(('F', f))
     cases.append(acase(w, ops, ['udp-checksum-ffff']))
-    return cases
+    return cases + sweep_as_app_case(rng)
 
 
 def gen_dialogues(kinds, n_quick=30):
@@ -1313,6 +1408,25 @@ def gen_c18(rng, tier):
     return cases
 
 
+def gen_c17(rng, tier):
+    """application cases + dialogues + every SMB2 dialect as the only offer / offered twice / between unknown ones, and every
+    pair of dialects in both orders"""
+    cases = gen_appcases(['smb1', 'smb2', 'raw'])(rng, tier) + gen_dialogues(['smb1', 'smb2'], 16)(rng, tier)
+    w = World(rng, selfmode=False, denymode=False)
+    lists = []
+    for d0 in gen.SMB2_DIALECTS + [0x0100, 0x0312]:
+        lists += [[d0], [d0, d0], [0x1234, d0, 0xffff]]
+        for d1 in gen.SMB2_DIALECTS:
+            lists.append([d0, d1])
+    ops = []
+    for ds in lists:
+        h = gen.smb2_header(rng, 0, 0)
+        p = h + struct.pack('<HHHHI', 36, len(ds), 1, 0, 0x7f) + rng.bytes(16) + rng.bytes(8) + b''.join(struct.pack('<H', d) for d in ds)
+        ops.append(app_op(rng, w, gen.nbt(p), tcp=rng.chance(1, 2)))
+    cases.append(acase(w, ops, ['smb2-dialect-lists']))
+    return cases
+
+
 # ----------------------------------------------------------------------------- property table
 
 PROPS = {
@@ -1326,7 +1440,7 @@ PROPS = {
                      'signatures / mutated, one real search_next(+end) call each; application level: payload grammars of every protocol over UDP and '
                      'TCP, IPv4 and IPv6, random ports; non-trivial = payload whose reference identification is some signature (or, for replies, a '
                      'signature-dispatched responder answered)'),
-    'C13': dict(gen=lambda rng, tier: gen_appcases(['http', 'http', 'http', 'raw'])(rng, tier) + gen_dialogues(['http'])(rng, tier), judge='C13', judge_mode='app', proj=proj_headers,
+    'C13': dict(gen=lambda rng, tier: gen_appcases(['http', 'http', 'http', 'raw'])(rng, tier) + gen_dialogues(['http'])(rng, tier) + sweep_as_app_case(rng), judge='C13', judge_mode='app', proj=proj_headers,
                 rule='HTTP request grammar (9 verbs, targets incl. non-UTF-8/CR/NUL, versions, 0..n headers, CRLF/LF) + single faults (unknown verb, '
                      'missing SP, bad version, header without colon, unterminated, lower case, two spaces) + raw mutations, over UDP and TCP, any port; '
                      'non-trivial = request of the strict grammar, or one outside the relaxed language that starts like HTTP'),
@@ -1339,7 +1453,7 @@ PROPS = {
     'C16': dict(gen=lambda rng, tier: gen_appcases(['rpc', 'rpc', 'rpc', 'raw'])(rng, tier) + gen_dialogues(['rpc'], 16)(rng, tier), judge='C16', judge_mode='app', proj=proj_headers,
                 rule='ONC-RPC calls (xid, program 99840..100095, versions, procedures 0..255, credential/verifier lengths) over UDP and record-marked TCP, '
                      'IPv4 and IPv6; non-trivial = call identified by the published signatures'),
-    'C17': dict(gen=lambda rng, tier: gen_appcases(['smb1', 'smb2', 'raw'])(rng, tier) + gen_dialogues(['smb1', 'smb2'], 16)(rng, tier), judge='C17', judge_mode='app', proj=proj_headers,
+    'C17': dict(gen=gen_c17, judge='C17', judge_mode='app', proj=proj_headers,
                 rule='SMB1/SMB2 negotiate and session-setup requests (ids, flags, dialect lists with order/duplicates/unknown, blob lengths, commands, '
                      'reply flag, truncation); non-trivial = well-formed request (response checked) or response-flag/other-command message (silence checked)'),
     'C18': dict(gen=gen_c18, judge='C18', judge_mode='app', proj=proj_headers,
@@ -1896,7 +2010,11 @@ def gen_streams(rng, tier):
     good = bytes.fromhex('80000028') + bytes.fromhex('556677880000000000000002000186a0000000020000000300000000000000000000000000000000')
     streams.append(('rpc', bad + good))
     streams.append(('rpc', good + good[:4] + b'\x99' + good[5:]))
-    return [(k, s[:110]) for k, s in streams if len(s) >= 2]
+    out = [(k, s[:110]) for k, s in streams if len(s) >= 2]
+    out.append(('http', b'GET /' + b'a' * 60 + b' HTTP/1.1\r\nHost: example.com\r\nAccept: */*\r\n\r\n'))
+    body = struct.pack('>IIIIII', 0x71223344, 0, 2, 100000, 4, 4) + struct.pack('>II', 1, 80) + bytes(80) + struct.pack('>II', 0, 0)
+    out.append(('rpc', struct.pack('>I', 0x80000000 | len(body)) + body))
+    return out
 
 
 def gen_large_streams(rng, tier):
@@ -1972,6 +2090,14 @@ def explore_c11(prop, pd, tier, rng, corpus_cases):
             g['segs'].append(flow_case(s, cs, 'cuts%d' % len(cs)))
         for cs in cutsets[::7][:40]:
             g['segs'].append(flow_case(s, cs, 'cuts%d-acks' % len(cs), acks=True))
+        # many segments (per-flow budgets of segments show only there): one byte per segment behind the signature, and 17 / 33 / 65
+        # segments
+        sig = min(len(s) - 1, 28 if kind == 'rpc' else (s.index(b' /') + 2 if b' /' in s else 8))
+        if len(s) - sig >= 2:
+            g['segs'].append(flow_case(s, tuple(range(sig, len(s))), 'one-byte-segments'))
+            for nseg in (17, 33, 65):
+                if len(s) - sig >= nseg:
+                    g['segs'].append(flow_case(s, tuple(range(sig, sig + nseg - 1)), 'cuts%d' % (nseg - 1)))
         small = [cs for cs in cutsets if min(b - a for a, b in zip((0,) + cs, cs + (len(s),))) <= 5]
         for cs in small[:: max(1, len(small) // 60)][:70]:
             g['segs'].append(flow_case(s, cs, 'cuts%d-padded' % len(cs), pad=True))
@@ -2394,6 +2520,19 @@ def explore_c08(prop, pd, tier, rng, corpus_cases):
             # cut after the first line, at a random byte, one byte short
             cutpoints = sorted(set([pl.find(b'\n') + 1 if b'\n' in pl else len(pl) // 2, rng.below(len(pl) + 1), max(0, len(pl) - 1)]))
             near += [uframe(v6, src2, dst, mac2, sp ^ 2, dp, pl[:k]) for k in cutpoints if 0 < k < len(pl)]
+        if kind not in ('echo', 'arp', 'ns') and not v6 and rng.chance(1, 3):
+            # the probe is the LAST fragment of the datagram (offset > 0, no more fragments); the histories hold matching first
+            # fragments (same addresses, protocol and identification) of this flow and of another one: a reassembly queue keyed
+            # without the ports would let them change the answer to the probe
+            whole = lib.udp(sp, dp, pl, src=src, dst=dst)
+            whole2 = lib.udp(sp ^ 0x0101, dp, pl, src=src, dst=dst)
+            if len(whole) > 16:
+                ident = rng.u16() or 1
+                fr = lambda l4part, ff: eth(sw.mac, sw.cl_mac, 0x0800, ipv4(src, dst, 17, l4part, flags_frag=ff, ident=ident))
+                probe = fr(whole[16:], 0x0002)
+                near = [fr(whole[:16], 0x2000), fr(whole2[:16], 0x2000), fr(whole[:16], 0x2000), fr(whole[:8], 0x2000), fr(whole[8:16], 0x2001),
+                        uframe(v6, src, dst, sw.cl_mac, sp, dp, pl), fr(whole, 0), fr(whole2[:16], 0x2000)]
+                kind = kind + '-fragment'
         rng_near = [near[rng.below(len(near))] for _ in range(4)]
         variants = [[], near, near[:1], near[4:5], rng_near + [gen.gen_frame(rng, sw)[1] for _ in range(4)], near + near] + [[x] for x in near[7:]]
         pk = split_reply(probe)
